@@ -32,7 +32,7 @@ LEVEL = 'exploration'
 NEEDS_GPG = True
 NO_SHRINK = ('hashes',)
 RULE = ('each run = generated tree + Manifest layout (nested, compressed sub-Manifests, paths needing escapes), '
-        'top-level originally signed or plain, 0-3 file edits, then an update+save with sign option unset/on/off, '
+        'top-level originally signed or plain, 0-3 file edits, then an update+save (30%: followed by more edits and a second update+save on the same loader object) with sign option unset/on/off, '
         'explicit key id (signer / other / expired key / unknown id) or default key, through library or CLI, with a '
         'signer fault drawn from {none, exit 1, exit 2, SIGKILL, SIGTERM, no output, binary missing}; a twin world '
         'runs the same update with signing off; non-trivial = signing was expected or a signer fault was injected; '
@@ -53,7 +53,13 @@ def generate(rng, tier, idx):
     edits = GU.gen_edits(rng, info, rng.choice([0, 1, 1, 2, 3]))
     opt = rng.choice(['unset', 'unset', 'on', 'on', 'off'])
     keyid = rng.choice([None, None, 'signer', 'other', 'expiring', 'unknown'])
+    # a second update+save on the SAME loader object (long-running caller); data-file edits only
+    round2 = None
+    if rng.random() < 0.3:
+        round2 = {'edits': [e for e in GU.gen_edits(rng, info, rng.choice([0, 1, 2])) if not (e['m'] == 'delete' and e['p'] in info['dirs'])],
+                  'force': rng.random() < 0.6}
     return {'prop': ID, 'order_key': '%016x' % rng.getrandbits(64), 'tree': g['tree'], 'manifests': g['manifests'],
+            'round2': round2,
             'edits': edits, 'orig_signed': rng.random() < 0.6, 'opt': opt, 'keyid': keyid,
             'top': top, 'watermark': rng.choice([None, None, 0, 100000]) if top == 'Manifest' else rng.choice([None, 0, 100000, 100000]),
             'api': rng.choice(['lib', 'lib', 'cli']) if top == 'Manifest' else 'lib', 'force': rng.random() < 0.5,
@@ -114,6 +120,11 @@ def run_world(sc, sign, keyid, fault, orig_signed):
                                                         hashes=sc['hashes'], compress_watermark=sc.get('watermark'))
                             m.update_entries_for_directory('')
                             m.save_manifests(force=bool(sc.get('force')))
+                            if sc.get('round2'):
+                                for e in sc['round2']['edits']:
+                                    w.mutate(e)
+                                m.update_entries_for_directory('')
+                                m.save_manifests(force=bool(sc['round2'].get('force')))
                             return True
                         r = call(upd)
         finally:
@@ -222,6 +233,8 @@ def execute(sc):
                 counters['plain_as_expected'] = 1
     nontrivial = expect_sign or bool(fault)
     counters['opt.' + sc['opt']] = 1
+    if sc.get('round2') and sc.get('api') != 'cli':
+        counters['second_save_round_on_the_same_loader'] = 1
     res = mk_result([seam], violations, nontrivial, outcome=outcome, dontcare=zones, counters=counters, ops=1)
     if fault:
         res['faults_fired']['signer.' + fault] = 1
